@@ -256,7 +256,7 @@ func msRunSchedule(reqs []msReq, vec []int) (branch []int, trace []string, resul
 			choice = vec[step]
 		}
 		if choice >= len(ws) {
-			choice = len(ws) - 1
+			choice %= len(ws) // sampled vectors (triples) carry arbitrary numbers
 		}
 		branch = append(branch, len(ws))
 		w := ws[choice]
@@ -374,6 +374,42 @@ func TestC16ModeS(t *testing.T) {
 				break
 			}
 			r.Sample(map[string]any{"pair": []string{reqs[0].Name, reqs[1].Name}, "schedules": nsched, "distinct_interleavings": len(distinctTraces), "exhaustive": exhausted, "one_interleaving": one})
+		}
+	}
+	// sampled triples under pseudo-random schedule vectors
+	{
+		ntr := r.Tiered(32, 800)
+		per := r.Tiered(60, 400)
+		for ti := 0; ti < ntr; ti++ {
+			idx := 1000 + ti
+			if !r.Mine(idx) {
+				continue
+			}
+			rng := r.Rand(idx)
+			reqs := []msReq{pick(rng, msAlphabet), pick(rng, msAlphabet), pick(rng, msAlphabet)}
+			sig := reqs[0].Name + "+" + reqs[1].Name + "+" + reqs[2].Name
+			r.Begin(idx, map[string]string{"triple": sig})
+			distinct := map[string]bool{}
+			for k := 0; k < per; k++ {
+				vec := make([]int, 96)
+				for i := range vec {
+					vec[i] = rng.IntN(720720)
+				}
+				var trace []string
+				var results []*msResult
+				var final map[string]string
+				fail := r.Bubble(func() { _, trace, results, final, _ = msRunSchedule(reqs, vec) })
+				r.AddEvaluations(1)
+				distinct[strings.Join(trace, ";")] = true
+				if fail != "" {
+					r.Violation("hang", sig, "schedule did not finish cleanly: "+firstLine(fail)+" trace: "+strings.Join(trace, " ; "), nil)
+				}
+				msJudge(r, sig, reqs, results, final, trace)
+			}
+			r.Count("triples_sampled", 1)
+			r.Count("triple_schedules", per)
+			r.Count("triple_distinct_traces", len(distinct))
+			r.Nontrivial(fmt.Sprintf("%s/%d", sig, len(distinct)))
 		}
 	}
 	r.Done()
